@@ -61,6 +61,7 @@ class Result:
     confirm_attempts: list = field(default_factory=list)
     risky_pattern: bool = False  # the file combines seq.extract with quantifiers (z3 has answered `unsat` wrongly on such files)
     second_opinion: bool = False  # some configuration other than the prover also answered unsat
+    seq_string: bool = False  # the file has sequences of strings `(Seq String)` under quantifiers: z3 has answered `unsat` wrongly on such files with NO configuration contradicting it (selftest/solver_regress/uncaught_*); for the evidence: proofs on such files that only z3 found
 
     @property
     def ok(self):
@@ -93,19 +94,23 @@ def _spec_apps(terms):
 
 
 def _has_bound_var(t):
-    stack = [t]
+    """does the term contain a de Bruijn variable that is bound OUTSIDE of it?  (variables of quantifiers that lie inside the
+    term are not free in it)"""
+    stack = [(t, 0)]
     seen = set()
     while stack:
-        x = stack.pop()
-        if x.get_id() in seen:
+        x, depth = stack.pop()
+        key = (x.get_id(), depth)
+        if key in seen:
             continue
-        seen.add(x.get_id())
+        seen.add(key)
         if z3.is_var(x):
-            return True
-        if z3.is_quantifier(x):
-            stack.append(x.body())
+            if z3.get_var_index(x) >= depth:
+                return True
+        elif z3.is_quantifier(x):
+            stack.append((x.body(), depth + x.num_vars()))
         elif z3.is_app(x):
-            stack.extend(x.children())
+            stack.extend((c_, depth) for c_ in x.children())
     return False
 
 
@@ -364,8 +369,8 @@ def risky_file(path: str) -> bool:
 
 
 def strict_seq(path: str) -> bool:
-    """files on which z3's `unsat` has been seen to be wrong WITHOUT any configuration contradicting it (nested sequences
-    `(Seq String)` + seq.extract under quantifiers, selftest/solver_regress/uncaught_*.smt2).  With PYVC_STRICT_SEQ=1 an
+    """files on which z3's `unsat` has been seen to be wrong WITHOUT any configuration contradicting it (sequences of strings
+    `(Seq String)` under quantifiers, selftest/solver_regress/uncaught_*.smt2).  With PYVC_STRICT_SEQ=1 an
     `unsat` on such a file counts only if a non-z3 solver (cvc5) answered `unsat` too."""
     if os.environ.get("PYVC_STRICT_SEQ", "0") != "1":
         return False
@@ -374,7 +379,7 @@ def strict_seq(path: str) -> bool:
             txt = f.read()
     except OSError:
         return False
-    return "(Seq String)" in txt and "seq.extract" in txt and "(forall " in txt
+    return "(Seq String)" in txt and "(forall " in txt
 
 
 def _solver_cmd(solver: str, path: str, timeout: float):
@@ -481,6 +486,12 @@ def solve_file(res: Result, timeout=10.0, portfolio=PORTFOLIO, confirm_unsat=Tru
     # (an `unsat` of the old z3 4.8.12 is always re-examined: it has also been seen to answer unsat on a satisfiable
     # quantifier-free seq/array file, notes/C13.requests.md item 9)
     res.risky_pattern = (not res.expect_fail) and risky_file(path)
+    try:
+        with open(path) as f_:
+            txt_ = f_.read()
+        res.seq_string = "(Seq String)" in txt_ and "(forall " in txt_
+    except OSError:
+        pass
     if res.status == "proved" and not res.expect_fail and confirm_unsat and (needs_confirmation(path) or res.risky_pattern or str(res.solver).startswith("z3-4.8")):
         dis, agree, att = confirm(path, res.solver, 3.0 if timeout <= 10 else 10.0)
         res.confirm_attempts = att
